@@ -110,6 +110,8 @@ theorem AP.congr {P : Int → List LogE → TaskId → TaskS → Prop} {ex : Lis
 /-- Closes "the invariant still holds" when only fields the invariant does not read changed. -/
 macro "frame_close" : tactic => `(tactic| first
   | assumption
+  | exact ExceptConds.entails.refl _
+  | (intro s h; exact h)
   | (rs_hyps h => exact h)
   | (rs_hyps h => exact AP.weak h.1)
   | (rs_hyps h => exact AP.weak h)
@@ -138,11 +140,11 @@ theorem AP.step {ex ex' : List SEvent} (s s' : SimS) (h : AP RunOK ex s)
     (hp : s'.pools = s.pools) (hg : TRel (taskAt s.graphs) (taskAt s'.graphs)) (hn : s'.now = s.now)
     (hl : ∃ es, s'.log.toList = s.log.toList ++ es ∧ ∀ e ∈ es, ∀ t τ, e ≠ LogE.finish t τ)
     (hq : ∀ e ∈ s'.queue.toList ++ ex', e.ev.etype = ET.taskFinished → e ∈ s.queue.toList ++ ex)
-    (hf : s'.future = s.future) (hns : s'.nextSched = s.nextSched) (hid : s.nextEid ≤ s'.nextEid)
+    (hef : ∀ x, EF s'.future s'.nextSched x → EF s.future s.nextSched x) (hid : s.nextEid ≤ s'.nextEid)
     (ha : s'.allGraphs = s.allGraphs) (hj : s'.jobs = s.jobs)
     (hld : s'.loaderReleased = false → s'.graphs = #[] ∧ s'.metas = #[]) : AP RunOK ex' s' := by
   refine AP.benign logMono_RunOK s s' h (by rw [hp]) (by rw [hp]) hg hn hl hq ?_ hid ha ?_ hld
-  · intro x hx; rw [hf, hns] at hx; exact Or.inl hx
+  · intro x hx; exact Or.inl (hef x hx)
   · rw [hj]; exact h.tmplQ
 
 theorem AP.allPre {P : Int → List LogE → TaskId → TaskS → Prop} {ex : List SEvent} {s : SimS} (h : AP P ex s)
@@ -161,7 +163,7 @@ theorem log_same_ext (l : Array LogE) :
 /-- Appending a non-`.finish` entry to the history keeps the invariant. -/
 theorem logE_spec (n : Int) (ex : List SEvent) (e : LogE) (he : LogE.isFinish e = false) : KeepsR n ex (logE e) := by
   mvcgen [logE]
-  rs_hyps h => exact ⟨AP.step _ _ h.1 rfl (TRel.refl _) rfl (log_push_ext _ e he) (fun _ h' _ => h') rfl rfl
+  rs_hyps h => exact ⟨AP.step _ _ h.1 rfl (TRel.refl _) rfl (log_push_ext _ e he) (fun _ h' _ => h') (fun _ h' => h')
     (Nat.le_refl _) rfl rfl h.1.loader, h.2⟩
 
 theorem raiseTask_spec (n : Int) (ex : List SEvent) (e : Option SErr) : KeepsR n ex (raiseTask e) := by
@@ -189,6 +191,7 @@ macro "ap_side" : tactic => `(tactic| first
   | exact log_same_ext _
   | exact log_push_ext _ _ rfl
   | exact (fun _ h' _ => h')
+  | exact (fun _ h' => h')
   | exact Nat.le_refl _
   | exact Nat.le_succ _
   | (rs_hyps h => exact h.1.loader)
@@ -198,7 +201,7 @@ macro "ap_side" : tactic => `(tactic| first
 leaves the side conditions that are not routine. -/
 macro "ap_step" : tactic => `(tactic|
   (have h := ‹AP RunOK _ _ ∧ _›
-   refine ⟨AP.step _ _ h.1 ?_ ?_ ?_ ?_ ?_ ?_ ?_ ?_ ?_ ?_ ?_, h.2⟩ <;> ap_side))
+   refine ⟨AP.step _ _ h.1 ?_ ?_ ?_ ?_ ?_ ?_ ?_ ?_ ?_ ?_, h.2⟩ <;> ap_side))
 
 /-- A fresh event: only the event counter moves. -/
 theorem mkEvent_spec (n : Int) (ex : List SEvent) (a : Nat) (b : Int) (c : Option TaskId) (d : Option PlacementS)
@@ -292,7 +295,7 @@ theorem AP.quietCall {ex : List SEvent} {n : Int} (s s' : SimS) (t : TaskId) (c 
   subst hs'
   refine ⟨AP.step s _ h.1 rfl
     (TRel.setGraph _ _ g _ hg (RFrame.setTask g _ x _ hx (call_TR x c (h.1.allPre _ g hg _ x hx) hc)))
-    rfl (log_same_ext _) (fun _ h' _ => h') rfl rfl (Nat.le_refl _) rfl rfl ?_, h.2⟩
+    rfl (log_same_ext _) (fun _ h' _ => h') (fun _ h' => h') (Nat.le_refl _) rfl rfl ?_, h.2⟩
   intro hl
   have := (h.1.loader hl).1
   rw [this] at hg; simp at hg
@@ -306,5 +309,112 @@ theorem taskCall_spec (n : Int) (ex : List SEvent) (t : TaskId) (c : TaskCall) (
     | frame_close
     | (refine AP.quietCall _ _ t c _ _ ?_ ?_ ?_ hc rfl <;> assumption)
     | (rs_hyps h => exact AP.weak (AP.quietCall _ _ t c _ _ h ‹_› ‹_› hc rfl).1)
+
+
+/-! ### state-level lemmas for the handlers -/
+
+theorem AP.loaded {P : Int → List LogE → TaskId → TaskS → Prop} {ex : List SEvent} {s : SimS} (h : AP P ex s)
+    {gi : Nat} {g : GraphS} (hg : s.graphs[gi]? = some g) : s.loaderReleased = true := by
+  cases hl : s.loaderReleased with
+  | true => rfl
+  | false => have := (h.loader hl).1; rw [this] at hg; simp at hg
+
+/-- The loader clause when a task graph is known to exist. -/
+theorem AP.loaderOf {P : Int → List LogE → TaskId → TaskS → Prop} {ex : List SEvent} {s : SimS} (h : AP P ex s)
+    {gi : Nat} {g : GraphS} (hg : s.graphs[gi]? = some g) (s' : SimS) (hlr : s'.loaderReleased = s.loaderReleased) :
+    s'.loaderReleased = false → s'.graphs = #[] ∧ s'.metas = #[] := by
+  intro hl; rw [hlr, h.loaded hg] at hl; cases hl
+
+theorem EF_erase (fut : AList TaskId Nat) (ns : Option Nat) (t : TaskId) :
+    ∀ x, EF (fut.erase t) ns x → EF fut ns x := by
+  intro x hx
+  rcases hx with ⟨u, hu⟩ | hx
+  · exact Or.inl ⟨u, AList.mem_erase _ _ _ hu⟩
+  · exact Or.inr hx
+
+theorem EF_none (fut : AList TaskId Nat) (ns : Option Nat) : ∀ x, EF fut none x → EF fut ns x := by
+  intro x hx
+  rcases hx with hx | hx
+  · exact Or.inl hx
+  · cases hx
+
+theorem EF_set (fut : AList TaskId Nat) (ns : Option Nat) (t : TaskId) (x0 : Nat) :
+    ∀ x, EF (fut.set t x0) ns x → EF fut ns x ∨ x = x0 := by
+  intro x hx
+  rcases hx with ⟨u, hu⟩ | hx
+  · rcases AList.mem_set _ _ _ _ hu with h1 | h1
+    · right; cases h1; rfl
+    · exact Or.inl (Or.inl ⟨u, h1⟩)
+  · exact Or.inl (Or.inr hx)
+
+theorem EF_some (fut : AList TaskId Nat) (ns : Option Nat) (x0 : Nat) :
+    ∀ x, EF fut (some x0) x → EF fut ns x ∨ x = x0 := by
+  intro x hx
+  rcases hx with hx | hx
+  · exact Or.inl (Or.inl hx)
+  · right; cases hx; rfl
+
+/-- A fresh event id is kept (`_future_placement_events[task] = event`, `_next_scheduler_event = event`). -/
+theorem AP.efAdd {ex ex' : List SEvent} (s s' : SimS) (h : AP RunOK ex s) (x0 : Nat) (hx : x0 < s.nextEid)
+    (hfresh : ∀ e ∈ s.queue.toList ++ ex, e.ev.etype = ET.taskFinished → e.ev.eid < x0)
+    (hp : s'.pools = s.pools) (hg : s'.graphs = s.graphs) (hn : s'.now = s.now) (hl : s'.log = s.log)
+    (hq : ∀ e ∈ s'.queue.toList ++ ex', e.ev.etype = ET.taskFinished → e ∈ s.queue.toList ++ ex)
+    (hef : ∀ x, EF s'.future s'.nextSched x → EF s.future s.nextSched x ∨ x = x0)
+    (hid : s'.nextEid = s.nextEid) (ha : s'.allGraphs = s.allGraphs) (hj : s'.jobs = s.jobs)
+    (hlr : s'.loaderReleased = s.loaderReleased) (hm : s'.metas = s.metas) : AP RunOK ex' s' := by
+  obtain ⟨h1, h2, h3, h4, h5, h6⟩ := h
+  refine ⟨?_, ?_, ?_, ?_, ?_, ?_⟩
+  · rw [hp, hg, hn, hl]; exact h1.q_sub hq
+  · rw [hl]; exact h2
+  · rw [hid]
+    exact h3.ef_add x0 hx hq (fun e he hf => Nat.ne_of_lt (hfresh e he hf)) hef
+  · rw [ha]; exact h4
+  · rw [hj]; exact h5
+  · rw [hlr, hg, hm]; exact h6
+
+/-- A fresh event: only the event counter moves. The post-condition records that the id
+is below the counter and above the ids of all TASK_FINISHED events. -/
+theorem mkEvent_spec' (n : Int) (ex : List SEvent) (a : Nat) (b : Int) (c : Option TaskId) (d : Option PlacementS)
+    (e : Option Nat) :
+    ⦃RA n ex⦄ mkEvent a b c d e
+    ⦃post⟨fun r s => ⌜(AP RunOK ex s ∧ s.now = n) ∧ r.ev.etype = a ∧ r.ev.time = b ∧ r.tid = c ∧
+        r.ev.eid < s.nextEid ∧ ∀ e' ∈ s.queue.toList ++ ex, e'.ev.etype = ET.taskFinished → e'.ev.eid < r.ev.eid⌝,
+      fun _ s => ⌜WInv s⌝⟩⦄ := by
+  mvcgen [mkEvent, uniqueName, getGraph, getTask]
+  all_goals first
+    | frame_close
+    | (refine ⟨?_, trivial, trivial, by first | assumption | rfl, Nat.lt_succ_self _, ?_⟩
+       · ap_step
+       · have h := ‹AP RunOK _ _ ∧ _›
+         exact h.1.eids.finLt)
+
+theorem mem_pySorted (l : List SEvent) : ∀ e ∈ Heap.pySorted SEvent.lt l, e ∈ l := by
+  unfold Heap.pySorted
+  generalize Heap.countRun SEvent.lt l = cr
+  obtain ⟨k, desc⟩ := cr
+  simp only []
+  have key : ∀ (xs acc : List SEvent), (∀ e ∈ acc, e ∈ l) → (∀ e ∈ xs, e ∈ l) →
+      ∀ e ∈ xs.foldl (fun acc x =>
+        let i := Heap.bisectRight SEvent.lt acc.toArray x 0 acc.length
+        acc.take i ++ x :: acc.drop i) acc, e ∈ l := by
+    intro xs
+    induction xs with
+    | nil => intro acc ha _ e he; exact ha e he
+    | cons x xs ih =>
+      intro acc ha hx e he
+      simp only [List.foldl_cons] at he
+      refine ih _ ?_ (fun e he => hx e (List.mem_cons_of_mem _ he)) e he
+      intro e' he'
+      simp only [List.mem_append, List.mem_cons] at he'
+      rcases he' with h1 | h1 | h1
+      · exact ha e' (List.mem_of_mem_take h1)
+      · rw [h1]; exact hx x (List.mem_cons_self ..)
+      · exact ha e' (List.mem_of_mem_drop h1)
+  apply key
+  · intro e he
+    split at he
+    · exact List.mem_of_mem_take (List.mem_reverse.mp he)
+    · exact List.mem_of_mem_take he
+  · intro e he; exact List.mem_of_mem_drop he
 
 end ErdosVerif.Model.Sim
